@@ -60,3 +60,36 @@ def nums_of(item):
 
 def expected_items_from_whole(ctx_file, whole_items):
     return canon(whole_items)
+
+def canon_tok(dt, body):
+    """canonicalise one answer token for model/implementation comparison"""
+    if body.startswith("dbg "):
+        return "dbg"
+    if C.DTYPES[dt][2] == "ts96" and body == "err InvalidArgument":
+        # Timestamp96::from_bytes reports an out-of-range raw value as InvalidArgument; the model's parser
+        # has one kind for rejected bytes. Protocol errors are InvalidArgument on both sides, so they still agree.
+        return "err Corruption|InvalidArgument"
+    if C.DTYPES[dt][2] == "ts96" and body == "err Corruption":
+        return "err Corruption|InvalidArgument"
+    if C.DTYPES[dt][2] == "ts96" and " , err " in body:
+        return body.replace(" , err InvalidArgument", " , err Corruption|InvalidArgument").replace(" , err Corruption", " , err Corruption|InvalidArgument").replace("|InvalidArgument|InvalidArgument", "|InvalidArgument")
+    return body
+
+def compare_dops(ctx, lines, impl_answers, stream="dops", sample=None, timeout=2400):
+    """run the same op histories on the Lean operational model and compare token by token"""
+    if not ctx.model_ok:
+        return 0
+    idx = list(range(len(lines))) if sample is None else sample
+    mans = C.driver([lines[i] for i in idx], timeout=timeout)
+    nd = 0
+    for i, m in zip(idx, mans):
+        dt = lines[i].split(" ")[1]
+        a = impl_answers[i]
+        ta = [(canon_tok(dt, b), k) for b, k in split_tokens(a)]
+        tm = [(canon_tok(dt, b), k) for b, k in split_tokens(m)]
+        ctx.count("model-compared")
+        if ta != tm:
+            j = next((j for j in range(min(len(ta), len(tm))) if ta[j] != tm[j]), min(len(ta), len(tm)))
+            ctx.disagree(stream, lines[i], "op %d: %s" % (j, str(tm[j:j + 1])[:400]), "op %d: %s" % (j, str(ta[j:j + 1])[:400]))
+            nd += 1
+    return nd
